@@ -697,9 +697,9 @@ theorem selectIdx_length {σ : Type} (keep : URule σ → Bool) (i : Nat) (rs : 
     · simp only [List.length_cons]; have := ih (i + 1); omega
     · simp only [List.length_cons]; have := ih (i + 1); omega
 
-theorem ulFirePass_length {σ : Type} (rules : List (URule σ)) (sf : Nat → σ → σ) :
+theorem ulFirePass_length {σ : Type} (rules : List (URule σ)) (sf : Nat → σ → σ) (isF : Nat → σ → Bool) :
     ∀ (ag : List (Nat × Int)) (s : σ) (flags out : List Nat),
-      (ulFirePass rules sf ag s flags out).2.2.length ≤ out.length + ag.length := by
+      (ulFirePass rules sf isF ag s flags out).2.2.length ≤ out.length + ag.length := by
   intro ag
   induction ag with
   | nil => intro s flags out; simp [ulFirePass]
@@ -711,13 +711,15 @@ theorem ulFirePass_length {σ : Type} (rules : List (URule σ)) (sf : Nat → σ
     | none => simp only [List.length_cons]; have := ih s flags out; omega
     | some r =>
       simp only [List.length_cons]
-      have := ih (sf r.name (r.act s)) (setInsert r.name flags) (out ++ [r.name])
-      simp only [List.length_append, List.length_singleton] at this
-      omega
+      split
+      · have := ih s flags out; omega
+      · have := ih (sf r.name (r.act s)) (setInsert r.name flags) (out ++ [r.name])
+        simp only [List.length_append, List.length_singleton] at this
+        omega
 
-theorem ulLoop_length {σ : Type} (rules : List (URule σ)) (sf : Nat → σ → σ) :
+theorem ulLoop_length {σ : Type} (rules : List (URule σ)) (sf : Nat → σ → σ) (isF : Nat → σ → Bool) :
     ∀ (fuel : Nat) (s : σ) (flags out : List Nat),
-      (ulLoop rules sf fuel s flags out).2.length ≤ out.length + fuel * rules.length := by
+      (ulLoop rules sf isF fuel s flags out).2.length ≤ out.length + fuel * rules.length := by
   intro fuel
   induction fuel with
   | zero => intro s flags out; simp [ulLoop]
@@ -726,16 +728,16 @@ theorem ulLoop_length {σ : Type} (rules : List (URule σ)) (sf : Nat → σ →
     simp only [ulLoop]
     split
     · simp
-    · have hp := ulFirePass_length rules sf
-        (sortAgenda (selectIdx (fun r => !flags.contains r.name && r.cond s) 0 rules)) s flags out
+    · have hp := ulFirePass_length rules sf isF
+        (sortAgenda (selectIdx (fun r => !flags.contains r.name && !(r.noLoop && isF r.name s) && r.cond s) 0 rules)) s flags out
       rw [sortAgenda_length] at hp
-      have hs := selectIdx_length (fun r : URule σ => !flags.contains r.name && r.cond s) 0 rules
+      have hs := selectIdx_length (fun r : URule σ => !flags.contains r.name && !(r.noLoop && isF r.name s) && r.cond s) 0 rules
       have hmul : (n + 1) * rules.length = n * rules.length + rules.length := Nat.succ_mul _ _
       split
       · dsimp only; omega
-      · have := ih (ulFirePass rules sf (sortAgenda (selectIdx (fun r => !flags.contains r.name && r.cond s) 0 rules)) s flags out).1
-          (ulFirePass rules sf (sortAgenda (selectIdx (fun r => !flags.contains r.name && r.cond s) 0 rules)) s flags out).2.1
-          (ulFirePass rules sf (sortAgenda (selectIdx (fun r => !flags.contains r.name && r.cond s) 0 rules)) s flags out).2.2
+      · have := ih (ulFirePass rules sf isF (sortAgenda (selectIdx (fun r => !flags.contains r.name && !(r.noLoop && isF r.name s) && r.cond s) 0 rules)) s flags out).1
+          (ulFirePass rules sf isF (sortAgenda (selectIdx (fun r => !flags.contains r.name && !(r.noLoop && isF r.name s) && r.cond s) 0 rules)) s flags out).2.1
+          (ulFirePass rules sf isF (sortAgenda (selectIdx (fun r => !flags.contains r.name && !(r.noLoop && isF r.name s) && r.cond s) 0 rules)) s flags out).2.2
         omega
 
 theorem typedFirePass_length {σ : Type} (rules : List (URule σ)) (sf : Nat → σ → σ) (isF : Nat → σ → Bool) :
@@ -1015,5 +1017,197 @@ theorem histOk_trace (rules : List CRule) : ∀ (hops : List HOp) (e : Inc) (sin
       simp only [Inc.htrace, Inc.hstep, histOk]
       have hI' : HInv rules e.reset [] := ⟨hI.rules_eq, by intro n hn; simp at hn, by simpa [Inc.reset, Agenda.reset] using hI.flags⟩
       exact ih e.reset [] hI'
+
+/-! ### named rule sets on the two map engines (`M` cases): the no-loop walk over every history of `fire_all` / `reset_fired_flags` /
+`set_fact` calls, duplicate rule names included -/
+
+theorem noLoopNames_append (f : Nat → Bool) (n : Nat) :
+    ∀ (xs since : List Nat), noLoopNames f since (xs ++ [n]) =
+      (match noLoopNames f since xs with
+       | some acc => if f n && acc.contains n then none else some (setInsert n acc)
+       | none => none) := by
+  intro xs
+  induction xs with
+  | nil => intro since; simp [noLoopNames]
+  | cons x t ih =>
+    intro since
+    simp only [List.cons_append, noLoopNames]
+    split
+    · rfl
+    · exact ih _
+
+/-- what a pass / loop keeps: the names returned so far pass the no-loop walk from `since`, and everything the walk has
+accumulated is marked in the facts (`<name>_fired`) -/
+def MInv (isNL : Nat → Bool) (since : List Nat) (s : CFacts) (out : List Nat) : Prop :=
+  ∃ acc, noLoopNames isNL since out = some acc ∧ ∀ n, n ∈ acc → n ∈ s.firedFlags
+
+theorem toNURule_act_mono (r : NRule) (s : CFacts) (n : Nat) (h : n ∈ s.firedFlags) : n ∈ ((toNURule r).act s).firedFlags := by
+  unfold toNURule
+  cases hm : r.marks with
+  | none => simp only [CFacts.bump]; split <;> exact h
+  | some k =>
+    simp only [cSetFired]
+    apply mem_setInsert.mpr
+    right
+    simp only [CFacts.bump]; split <;> exact h
+
+theorem MInv_fire (rules : List NRule) (since : List Nat) (s : CFacts) (out : List Nat) (r : NRule) (hr : r ∈ rules)
+    (hchk : ¬ (r.noLoop = true ∧ r.name ∈ s.firedFlags))
+    (h : MInv (nameNoLoop rules) since s out) :
+    MInv (nameNoLoop rules) since (cSetFired r.name ((toNURule r).act s)) (out ++ [r.name]) := by
+  obtain ⟨acc, hacc, hin⟩ := h
+  have hnl : nameNoLoop rules r.name = true → r.noLoop = true := by
+    intro hn
+    unfold nameNoLoop at hn
+    have := List.all_eq_true.mp hn r hr
+    simpa using this
+  refine ⟨setInsert r.name acc, ?_, ?_⟩
+  · rw [noLoopNames_append, hacc]
+    simp only
+    split
+    · rename_i hc
+      simp only [Bool.and_eq_true, List.contains_iff_mem] at hc
+      exact absurd ⟨hnl hc.1, hin _ (by simpa using hc.2)⟩ hchk
+    · rfl
+  · intro n hn
+    simp only [cSetFired]
+    apply mem_setInsert.mpr
+    rcases mem_setInsert.mp hn with h1 | h1
+    · left; exact h1
+    · right; exact toNURule_act_mono r s n (hin n h1)
+
+theorem map_toNURule_get (rules : List NRule) (i : Nat) (ur : URule CFacts) (h : (rules.map toNURule)[i]? = some ur) :
+    ∃ r, r ∈ rules ∧ ur = toNURule r := by
+  rw [List.getElem?_map] at h
+  cases hr : rules[i]? with
+  | none => rw [hr] at h; simp at h
+  | some r =>
+    rw [hr] at h
+    simp only [Option.map_some, Option.some.injEq] at h
+    exact ⟨r, List.mem_of_getElem? hr, h.symm⟩
+
+theorem chk_of_not (r : NRule) (flags : List Nat) (s : CFacts)
+    (hc : ¬ ((toNURule r).noLoop && (flags.contains (toNURule r).name || cIsFired (toNURule r).name s)) = true) :
+    ¬ (r.noLoop = true ∧ r.name ∈ s.firedFlags) := by
+  intro ⟨h1, h2⟩
+  apply hc
+  simp [toNURule, cIsFired, h1, h2]
+
+theorem typedPass_inv (rules : List NRule) (since : List Nat) :
+    ∀ (ag : List (Nat × Int)) (s : CFacts) (flags out : List Nat) (ch : Bool),
+      MInv (nameNoLoop rules) since s out →
+      MInv (nameNoLoop rules) since
+        (typedFirePass (rules.map toNURule) cSetFired cIsFired ag s flags out ch).1
+        (typedFirePass (rules.map toNURule) cSetFired cIsFired ag s flags out ch).2.2.1 := by
+  intro ag
+  induction ag with
+  | nil => intro s flags out ch h; simpa [typedFirePass] using h
+  | cons x t ih =>
+    intro s flags out ch h
+    obtain ⟨i, p⟩ := x
+    simp only [typedFirePass]
+    cases hi : (rules.map toNURule)[i]? with
+    | none => exact ih s flags out ch h
+    | some ur =>
+      obtain ⟨r, hr, rfl⟩ := map_toNURule_get rules i ur hi
+      simp only []
+      split
+      · exact ih s flags out ch h
+      · rename_i hc
+        apply ih
+        exact MInv_fire rules since s out r hr (chk_of_not r flags s hc) h
+
+theorem ulPass_inv (rules : List NRule) (since : List Nat) :
+    ∀ (ag : List (Nat × Int)) (s : CFacts) (flags out : List Nat),
+      MInv (nameNoLoop rules) since s out →
+      MInv (nameNoLoop rules) since
+        (ulFirePass (rules.map toNURule) cSetFired cIsFired ag s flags out).1
+        (ulFirePass (rules.map toNURule) cSetFired cIsFired ag s flags out).2.2 := by
+  intro ag
+  induction ag with
+  | nil => intro s flags out h; simpa [ulFirePass] using h
+  | cons x t ih =>
+    intro s flags out h
+    obtain ⟨i, p⟩ := x
+    simp only [ulFirePass]
+    cases hi : (rules.map toNURule)[i]? with
+    | none => exact ih s flags out h
+    | some ur =>
+      obtain ⟨r, hr, rfl⟩ := map_toNURule_get rules i ur hi
+      simp only []
+      split
+      · exact ih s flags out h
+      · rename_i hc
+        apply ih
+        exact MInv_fire rules since s out r hr (chk_of_not r flags s hc) h
+
+theorem typedLoop_inv (rules : List NRule) (since : List Nat) :
+    ∀ (fuel : Nat) (s : CFacts) (flags out : List Nat),
+      MInv (nameNoLoop rules) since s out →
+      MInv (nameNoLoop rules) since
+        (typedLoop (rules.map toNURule) cSetFired cIsFired fuel s flags out).1
+        (typedLoop (rules.map toNURule) cSetFired cIsFired fuel s flags out).2 := by
+  intro fuel
+  induction fuel with
+  | zero => intro s flags out h; simpa [typedLoop] using h
+  | succ n ih =>
+    intro s flags out h
+    simp only [typedLoop]
+    split
+    · exact ih _ _ _ (typedPass_inv rules since _ s flags out false h)
+    · exact typedPass_inv rules since _ s flags out false h
+
+theorem ulLoop_inv (rules : List NRule) (since : List Nat) :
+    ∀ (fuel : Nat) (s : CFacts) (flags out : List Nat),
+      MInv (nameNoLoop rules) since s out →
+      MInv (nameNoLoop rules) since
+        (ulLoop (rules.map toNURule) cSetFired cIsFired fuel s flags out).1
+        (ulLoop (rules.map toNURule) cSetFired cIsFired fuel s flags out).2 := by
+  intro fuel
+  induction fuel with
+  | zero => intro s flags out h; simpa [ulLoop] using h
+  | succ n ih =>
+    intro s flags out h
+    simp only [ulLoop]
+    split
+    · exact h
+    · split
+      · exact ulPass_inv rules since _ s flags out h
+      · exact ih _ _ _ (ulPass_inv rules since _ s flags out h)
+
+theorem mhistOk_trace (typed : Bool) (rules : List NRule) :
+    ∀ (ops : List MOp) (s : CFacts) (since : List Nat), (∀ n, n ∈ since → n ∈ s.firedFlags) →
+      mhistOk (nameNoLoop rules) ((if typed then typedBound else ulBound) * rules.length) since ops (mtrace typed rules s ops) = true := by
+  intro ops
+  induction ops with
+  | nil => intro s since _; simp [mtrace, mhistOk]
+  | cons op ops ih =>
+    intro s since hs
+    cases op with
+    | fire =>
+      have h0 : MInv (nameNoLoop rules) since s [] := ⟨since, by simp [noLoopNames], hs⟩
+      cases typed with
+      | true =>
+        obtain ⟨acc, hacc, hin⟩ := typedLoop_inv rules since typedBound s [] [] h0
+        have hl := typedLoop_length (rules.map toNURule) cSetFired cIsFired typedBound s [] []
+        simp only [List.length_map, List.length_nil, Nat.zero_add] at hl
+        simp only [mtrace, mstep, mhistOk, if_true, hacc, Bool.and_eq_true, decide_eq_true_eq]
+        exact ⟨hl, ih _ acc hin⟩
+      | false =>
+        obtain ⟨acc, hacc, hin⟩ := ulLoop_inv rules since ulBound s [] [] h0
+        have hl := ulLoop_length (rules.map toNURule) cSetFired cIsFired ulBound s [] []
+        simp only [List.length_map, List.length_nil, Nat.zero_add] at hl
+        simp only [mtrace, mstep, mhistOk, Bool.false_eq_true, if_false, hacc, Bool.and_eq_true, decide_eq_true_eq]
+        exact ⟨hl, ih _ acc hin⟩
+    | reset =>
+      simp only [mtrace, mstep, mhistOk]
+      exact ih _ [] (by intro n hn; simp at hn)
+    | set a b =>
+      simp only [mtrace, mstep, mhistOk]
+      exact ih _ since hs
+    | marker k =>
+      simp only [mtrace, mstep, mhistOk]
+      exact ih _ since (by intro n hn; simp only [cSetFired]; exact mem_setInsert.mpr (Or.inr (hs n hn)))
+
 
 end C07
